@@ -29,6 +29,14 @@ def _dumps(eng, st, self_v, args, kwargs, node):
     return out
 
 
+@_impl("functools.update_wrapper", cite="functools.update_wrapper(wrapper, wrapped): copies __module__, __name__, __qualname__, __doc__ and every entry of "
+       "wrapped.__dict__ into the wrapper's own __dict__ and sets wrapper.__wrapped__: instance attributes that from then on shadow __getattr__")
+def _update_wrapper(eng, st, self_v, args, kwargs, node):
+    wrapper, wrapped = args[0], args[1]
+    outs = eng.set_attr(wrapper, "__wrapped__", wrapped, st)       # an attribute the wrapper classes do not declare: a frame violation of the caller
+    return [eng.val(o[1], wrapper) for o in outs]
+
+
 @_impl("cloudpickle.loads", cite="cloudpickle.loads(data): the object; with T-deps loads(dumps(o)) behaves like o")
 def _loads(eng, st, self_v, args, kwargs, node):
     from pyvc.values import to_obj_term
@@ -49,7 +57,7 @@ c.ensures("wrap/stores-the-object-and-the-flag", "self._obj is obj and self._kee
 c.raises_only("wrap/no-exception")
 c.modifies("self._obj", "self._keep_wrapper")
 
-c = M.contract("CloudpickledObjectWrapper.__reduce__", props=["C16"])
+c = M.contract("CloudpickledObjectWrapper.__reduce__", props=["C16", "C03"])   # C03: a wrapped callable or argument sent again is pickled as it is *now* (the value the future holds is fn(*args) of that submission)
 c.param("self", T.Ref("CloudpickledObjectWrapper"))
 c.ensures("reduce/unwrapped-unless-keep-wrapper",
           "implies(not self._keep_wrapper, result[0] is loads and len(result[1]) == 1 and result[1][0] is cp_dumps(self._obj))")
